@@ -178,7 +178,7 @@ def run(ck):
     for n in walk_body(fn):
         if isinstance(n, ast.If) and "self.split_dis" in norm(n.test):
             t = norm(n.test)
-            nonempty = ("lines_cpt > 0" in t) or ("cur_block.lines" in t)
+            nonempty = ("lines_cpt > 0" in t) or ("0 < lines_cpt" in t) or ("lines_cpt >= 1" in t) or ("1 <= lines_cpt" in t) or ("cur_block.lines" in t)
             body = ast.Module(body=n.body, type_ignores=[])
             cst = any(isinstance(c, ast.Call) and callee_attr(c) == "add_cst" and "c_next" in norm(c) for c in walk_local(body))
             brk = any(isinstance(s, ast.Break) for s in n.body)
